@@ -9,6 +9,7 @@ mod fam_bloom;
 mod fam_hist;
 mod fam_conf;
 mod fam_store;
+mod fam_chg;
 mod gen;
 mod model;
 
@@ -33,6 +34,7 @@ fn main() {
         "hist" => fam_hist::run(&mut rng, &tier, out),
         "conf" => fam_conf::run(&mut rng, &tier, out),
         "store" => fam_store::run(&mut rng, &tier, out),
+        "chg" => fam_chg::run(&mut rng, &tier, out),
         _ => {
             eprintln!("unknown family {}", fam);
             std::process::exit(2);
